@@ -36,6 +36,10 @@ def collect(props):
         if os.path.exists(meta) and os.path.exists(patch):
             with open(meta) as fh:
                 m = json.load(fh)
+            if m.get("neutralised_by"):
+                # a later repair of /repo made this change harmless (its own demonstration passes with it): it is kept
+                # for the record and no longer counted
+                continue
             out.append(("seeded/" + os.path.basename(d), m["property"], patch))
             for other in m.get("also_checked_by", []):
                 # a change written against one property that is (also) visible to another property's check
@@ -92,7 +96,8 @@ def main(argv) -> int:
         with open(out_path) as fh:
             old = json.load(fh)
         done = {(r["mutant"], r["property"]) for r in results}
-        results = [r for r in old.get("results", []) if (r["mutant"], r["property"]) not in done] + results
+        known = {(x[0], x[1]) for x in collect(set())}
+        results = [r for r in old.get("results", []) if (r["mutant"], r["property"]) not in done and (r["mutant"], r["property"]) in known] + results
         results.sort(key=lambda r: (r["mutant"].startswith("seeded/"), r["mutant"], r["property"]))
     with open(out_path, "w") as fh:
         json.dump({"tier": tier, "repo_head": sh("git", "-C", core.REPO_DIR, "rev-parse", "HEAD").stdout.strip(), "results": results}, fh, indent=1)
